@@ -312,3 +312,9 @@ pub const EXPECTED_IMPORTS: &[(&str, &str)] = &[
 
 /// glob imports at module level that are there today
 pub const KNOWN_GLOBS: &[&str] = &["range::*"];
+
+/// modules kept in files of their own that the translator reads
+pub const KNOWN_MODULES: &[&str] = &["range"];
+
+/// the version of winnow whose combinators `lean/SemverGen/Winnow.lean` describes
+pub const WINNOW_VERSION: &str = "0.6.26";
